@@ -87,6 +87,22 @@ CLAIMED = {
          "language equality up to length 4.",
          "TLC-enumerated inputs; TLC trace validation of input/output pairs (Xform.tla)",
          "DESIGN.md §6 C12"),
+ "C03": ("model_checking",
+         "TLC classifies every well-formed grammar of the universe as LALR(1) or not with a canonical-LR(1)-merged-by-core construction "
+         "(LR1.tla) and emits its bounded language. parol's LALR(1) pipeline runs under catch_unwind (a crash on an LALR(1) grammar is a "
+         "violation); for tables without resolved conflicts the real LRParser must succeed exactly on the sentences (all strings up to "
+         "n); sampled runs are validated by LRParser.tla: every reported reduction pops exactly its right-hand side from the symbol "
+         "stack, success needs stack = <<start>> with all input shifted, and the final tree is the derivation tree.",
+         "n=4/5; shifts are inferred from the byte offsets of the tokens handed to the reductions (the recorder knows where it put each "
+         "token); crashes on grammars that are not LALR(1) are C26's.",
+         "TLC LR(1) oracle + language vectors replayed through the pipeline; TLC trace validation of the reduction sequence and tree",
+         "DESIGN.md §6 C03"),
+ "C04": ("model_checking",
+         "Same vectors as C03: for every grammar the oracle says is not LALR(1) parol must return Err or a non-empty resolved-conflict list; "
+         "for tables with resolved conflicts every accepted string up to length n must be a sentence (runs are depth-guarded).",
+         "n=4/5; the converse (parol reports a conflict although the oracle says LALR(1)) is counted, not required.",
+         "TLC LR(1)-merge oracle for 'is LALR(1)', language vectors for soundness of resolved tables",
+         "DESIGN.md §6 C04"),
 }
 
 NOT_YET = "check not built yet in this round (see DESIGN.md §11.2 build order); will be claimed once its quick check passes on the unchanged tree"
